@@ -19,6 +19,22 @@ _CTR = ("        offset_big = offset // 16\n"
         "        # this is just to advance the counter\n"
         "        aes.decrypt_data(self._decryptor, b\"\\x00\" * offset_small)\n")
 _RET_ALL = "            return [ parse_range(r.strip()) for r in rangeset.split(',') ]\n"
+# parse_range as it stands after the repair of the 'unsatisfiable is not invalid' defect (rule C40.15): the
+# first <= last test sits in the branch of an explicit last-byte-pos, a signed suffix-length is refused
+_SUFFIX_GUARD = ("                    suffix_length = int(last)\n"
+                 "                    if suffix_length < 0:\n")
+_SUFFIX_PAIR = ("                    first = filesize - suffix_length\n"
+                "                    last = filesize - 1\n")
+_OPEN = ("                    if last == '':\n"
+         "                        last = filesize - 1\n")
+_EXPLICIT_CHECK = ("                        if last < first:\n"
+                   "                            raise ValueError\n")
+_EXPLICIT = ("                        last = int(last)\n"
+             "                        # Only an explicit last-byte-pos smaller than the\n"
+             "                        # first-byte-pos makes the spec invalid (and the\n"
+             "                        # header ignored).  A range that is valid but\n"
+             "                        # starts at or beyond the end of the file is\n"
+             "                        # unsatisfiable: render() answers that with 416.\n" + _EXPLICIT_CHECK)
 
 MUTANTS = [
     # ---- C40.1 announced = served
@@ -83,19 +99,21 @@ MUTANTS = [
       "        try:\n            # byte-ranges-specifier\n            units, rangeset = range_header.split('=', 1)\n",
       "        units, rangeset = range_header.split('=', 1)\n        try:\n", "C40.4"),
     # ---- C40.5 parse_range
-    M("inverted-range-accepted", F,
-      "                if last < first:\n                    raise ValueError\n", "", "C40.5"),
-    M("suffix-last-off-by-one", F,
-      "                    first = filesize - int(last)\n                    last = filesize - 1\n",
-      "                    first = filesize - int(last)\n                    last = filesize\n", "C40.5"),
+    M("inverted-range-accepted", F, _EXPLICIT_CHECK, "", "C40.5"),
+    M("suffix-last-off-by-one", F, _SUFFIX_PAIR,
+      "                    first = filesize - suffix_length\n                    last = filesize\n", "C40.5"),
     M("suffix-counts-from-start", F,
-      "                    first = filesize - int(last)\n", "                    first = int(last)\n", "C40.5"),
-    M("open-ended-last-is-first", F,
-      "                    if last == '':\n                        last = filesize - 1\n",
+      "                    first = filesize - suffix_length\n", "                    first = suffix_length\n", "C40.5"),
+    M("signed-suffix-length-accepted", F,
+      _SUFFIX_GUARD + "                        # int() accepts a sign, the grammar does not\n"
+      "                        raise ValueError\n",
+      "                    suffix_length = int(last)\n", "C40.5"),
+    M("signed-suffix-length-made-positive", F, _SUFFIX_GUARD,
+      "                    suffix_length = abs(int(last))\n                    if suffix_length < 0:\n", "C40.5"),
+    M("open-ended-last-is-first", F, _OPEN,
       "                    if last == '':\n                        last = first\n", "C40.5"),
-    M("inverted-raises-other-error", F,
-      "                if last < first:\n                    raise ValueError\n",
-      "                if last < first:\n                    raise IndexError\n", "C40.5"),
+    M("inverted-raises-other-error", F, _EXPLICIT_CHECK,
+      "                        if last < first:\n                            raise IndexError\n", "C40.5"),
     # ---- C40.6 HEAD and GET share the renderer
     M("head-shortcut-for-immutable", F,
       "        filename = get_arg(req, b\"filename\", self.name) or \"unknown\"\n",
@@ -201,8 +219,8 @@ MUTANTS = [
       "                    last = min(filesize-1, last)\n",
       "                    if last >= filesize:\n                        last = filesize - 1\n", None),
     M("benign-parse-range-renamed", F,
-      "                if last < first:\n                    raise ValueError\n\n                return (first, last)\n",
-      "                if not (first <= last):\n                    raise ValueError()\n\n"
+      _EXPLICIT_CHECK + "\n                return (first, last)\n",
+      "                        if not (first <= last):\n                            raise ValueError()\n\n"
       "                result = (first, last)\n                return result\n", None),
     M("benign-inline-format", F,
       "        req.setHeader(\"content-length\", b\"%d\" % contentsize)\n",
@@ -416,6 +434,73 @@ MUTANTS = [
       "        else:\n"
       "            self._decryptor = aes.create_decryptor(readkey)\n"
       "        aes.decrypt_data(self._decryptor, b\"\\x00\" * offset_small)\n", None),
+    # ---- C40.15 unsatisfiable is not invalid: a refusal is decided by the header text, never by the file size
+    M("inverted-check-after-the-branches", F,          # the defect as it stood: 'N-' with N >= size, '-0' -> 200
+      _EXPLICIT + "\n                return (first, last)\n",
+      "                        last = int(last)\n\n"
+      "                if last < first:\n                    raise ValueError\n\n"
+      "                return (first, last)\n", "C40.15"),
+    M("open-ended-checked-against-size", F, _OPEN,
+      _OPEN + "                        if last < first:\n                            raise ValueError\n", "C40.15"),
+    M("inverted-check-covers-open-ended", F,            # moved out of the explicit branch only
+      _EXPLICIT + "\n                return (first, last)\n",
+      "                        last = int(last)\n"
+      "                    if last < first:\n                        raise ValueError\n\n"
+      "                return (first, last)\n", "C40.15"),
+    M("explicit-range-beyond-end-is-invalid", F, _EXPLICIT_CHECK,
+      "                        if last < first or first >= filesize:\n"
+      "                            raise ValueError\n", "C40.15"),
+    M("suffix-longer-than-file-refused", F, _SUFFIX_GUARD,
+      "                    suffix_length = int(last)\n"
+      "                    if suffix_length < 0 or suffix_length > filesize:\n", "C40.15"),
+    M("suffix-inverted-check", F, _SUFFIX_PAIR,
+      _SUFFIX_PAIR + "                    if last < first:\n                        raise ValueError\n", "C40.15"),
+    M("suffix-length-zero-refused", F, _SUFFIX_GUARD,
+      "                    suffix_length = int(last)\n                    if suffix_length <= 0:\n", "C40.15"),
+    M("suffix-length-below-one-refused", F, _SUFFIX_GUARD,
+      "                    suffix_length = int(last)\n                    if suffix_length < 1:\n", "C40.15"),
+    M("first-range-beyond-end-ignored", F, _RET_ALL,    # the same slip one level up: the 'ignore' value on the size
+      "            ranges = [ parse_range(r.strip()) for r in rangeset.split(',') ]\n"
+      "            if ranges[0][0] >= filesize:\n"
+      "                return None\n"
+      "            return ranges\n", "C40.15"),
+    M("size-kept-on-self-decides", F,
+      "        self.filename = filename\n\n    def parse_range_header",
+      "        self.filename = filename\n        self.size = filenode.get_size()\n\n    def parse_range_header",
+      "C40.15", edits=[(F, _OPEN, "                    if last == '':\n                        last = filesize - 1\n"
+                        "                        if first > self.size - 1:\n"
+                        "                            raise ValueError\n")]),
+    M("benign-explicit-check-flipped", F, _EXPLICIT_CHECK,
+      "                        if first > last:\n                            raise ValueError\n", None),
+    M("benign-explicit-branch-first", F,
+      _OPEN + "                    else:\n" + _EXPLICIT,
+      "                    if last != '':\n"
+      "                        last_pos = int(last)\n"
+      "                        if not first <= last_pos:\n"
+      "                            raise ValueError(\"last-byte-pos before first-byte-pos\")\n"
+      "                        last = last_pos\n"
+      "                    else:\n"
+      "                        last = filesize - 1\n", None),
+    M("benign-suffix-guard-renamed", F,
+      _SUFFIX_GUARD + "                        # int() accepts a sign, the grammar does not\n"
+      "                        raise ValueError\n" + _SUFFIX_PAIR,
+      "                    n = int(last)\n"
+      "                    if not n >= 0:\n"
+      "                        raise ValueError(\"signed suffix-length\")\n"
+      "                    first, last = filesize - n, filesize - 1\n", None),
+    M("benign-suffix-guard-on-digits", F, _SUFFIX_GUARD,
+      "                    suffix_length = int(last)\n                    if not last.isdigit():\n", None),
+    M("benign-suffix-guard-via-first", F,              # filesize - n > filesize is a fact about n: the size cancels
+      _SUFFIX_GUARD + "                        # int() accepts a sign, the grammar does not\n"
+      "                        raise ValueError\n" + _SUFFIX_PAIR,
+      "                    suffix_length = int(last)\n"
+      "                    first = filesize - suffix_length\n"
+      "                    if first > filesize:\n"
+      "                        raise ValueError\n"
+      "                    last = filesize - 1\n", None),
+    M("benign-size-logged-in-open-branch", F, _OPEN,
+      _OPEN + "                        if first >= filesize:\n"
+      "                            self.beyond_end = True\n", None),
     M("vanish-render-http-exception", FC,
       "def _renderHTTP_exception(request, failure):", "def _renderHTTP_failure(request, failure):", "ANALYSIS-ERROR",
       edits=[(FC, "            _renderHTTP_exception(request, result),\n", "            _renderHTTP_failure(request, result),\n")]),
